@@ -614,7 +614,12 @@ def as_sym_array(values) -> SymArray:
 
 
 def same_cell(x, y):
-    """Claim `x == y` for two cells; reflexive instances (structurally identical terms) are discharged on the spot."""
+    """Claim `x == y` for two cells; reflexive instances (structurally identical terms) are discharged on the spot.
+    A concrete NaN / inf cell equals only the same non-finite value (a real-valued term is never NaN)."""
+    nf = [isinstance(v, (float, numpy.floating)) and not math.isfinite(float(v)) for v in (x, y)]
+    if any(nf):
+        same = all(nf) and ((math.isnan(float(x)) and math.isnan(float(y))) or float(x) == float(y))
+        return z3.BoolVal(bool(same))
     a, b = to_z3(x), to_z3(y)
     if a.eq(b):
         return z3.BoolVal(True)
